@@ -380,8 +380,7 @@ fn read_texture(f: &mut BinReader, emitter: &impl Emitter, with_images: bool) ->
     }
 
     if with_images {
-        let mut data = vec![0; size as usize];
-        f.read_exact(&mut data)?;
+        let data = f.read_byte_vec(size as usize)?;
         Ok((thtx, Some(data.into())))
     } else {
         Ok((thtx, None))
